@@ -843,3 +843,38 @@ package fsm
 //@   loop 0 invariant ctx.batch != nil && ctx.db != nil && ctx.batch.bdb == ctx.db && ctx.batch != ctx.db && ctx.index == old(ctx.index) && ctx.leaderIndex == old(ctx.leaderIndex) && ctx.db == old(ctx.db)
 //@   loop 0 invariant ctx.nhandled == old(ctx.nhandled) + rangeindex + 1
 //@   loop 0 step [C05.seq.step] ctx.nhandled == prev(ctx.nhandled) + 1 && (c.Command.Sequence[rangeindex+1].Type != 2 ==> cmdPtrOf(ctx.lastHandled) == c.Command.Sequence[rangeindex+1])
+
+// ---------------------------------------------------------------- PUT_BATCH (what a restore proposes: C07, C01)
+
+// handlePutBatch: the puts are applied one after the other, in order - two-state step clause: after
+// the i-th put the view holds that key with that value and is otherwise what it was before the put
+//@ func handlePutBatch
+//@   results results, err
+//@   requires ctx != nil && ctx.batch != nil && ctx.db != nil && ctx.batch.bdb == ctx.db && ctx.batch != ctx.db
+//@   requires forall j int :: 0 <= j && j < len(ops) ==> ops[j] != nil && !ops[j].PrevKv
+//@   ensures err == nil ==> len(results) == len(ops) && ctx.batch != nil && ctx.batch.bdb == ctx.db && ctx.batch != ctx.db
+//@   ensures ctx.index == old(ctx.index) && ctx.leaderIndex == old(ctx.leaderIndex) && ctx.db == old(ctx.db) && (ctx.batch == old(ctx.batch) || fresh(ctx.batch))
+//@   ensures [C01.handle.book+C07] err == nil ==> bookSame(ctx.batch.vP, ctx.batch.vV, old(ctx.batch.vP), old(ctx.batch.vV))
+//@   ensures [C07.batch.none] err == nil && len(ops) == 0 ==> ctx.batch.vP == old(ctx.batch.vP) && ctx.batch.vV == old(ctx.batch.vV)
+//@   modifies ctx.batch, family(G_any_vP), family(G_any_vV)
+//@   loop 0 invariant -1 <= rangeindex && rangeindex < len(ops) && len(results) == len(ops) && fresh(results)
+//@   loop 0 invariant ctx.batch != nil && ctx.db != nil && ctx.batch.bdb == ctx.db && ctx.batch != ctx.db && ctx.index == old(ctx.index) && ctx.leaderIndex == old(ctx.leaderIndex) && ctx.db == old(ctx.db) && (ctx.batch == old(ctx.batch) || fresh(ctx.batch))
+//@   loop 0 invariant bookSame(ctx.batch.vP, ctx.batch.vV, old(ctx.batch.vP), old(ctx.batch.vV))
+//@   loop 0 invariant rangeindex == -1 ==> ctx.batch.vP == old(ctx.batch.vP) && ctx.batch.vV == old(ctx.batch.vV) && ctx.batch == old(ctx.batch)
+//@   loop 0 step [C07.batch.step.key+C01] forall k Bytes :: ctx.batch.vP[k] == (k == encK(1, bytesOf(ops[rangeindex+1].Key)) ? true : prev(ctx.batch.vP[k]))
+//@   loop 0 step [C07.batch.step.val+C01] forall k Bytes :: ctx.batch.vV[k] == (k == encK(1, bytesOf(ops[rangeindex+1].Key)) ? bytesOf(ops[rangeindex+1].Value) : prev(ctx.batch.vV[k]))
+
+// commandPutBatch.handle: every pair of the batch becomes one put with exactly that key and value,
+// in the batch's order; the result carries the entry's own revision
+//@ func (commandPutBatch).handle
+//@   results ur, res, err
+//@   requires c.Command != nil && ctx != nil && ctx.batch != nil && ctx.db != nil && ctx.batch.bdb == ctx.db && ctx.batch != ctx.db
+//@   requires forall j int :: 0 <= j && j < len(c.Command.Batch) ==> c.Command.Batch[j] != nil
+//@   ensures [C10.handle.rev] err == nil ==> res != nil && res.Revision == ctx.index && fresh(res)
+//@   ensures ctx.index == old(ctx.index) && ctx.leaderIndex == old(ctx.leaderIndex) && ctx.db == old(ctx.db) && (ctx.batch == old(ctx.batch) || fresh(ctx.batch))
+//@   ensures [C01.handle.book+C07] err == nil ==> bookSame(ctx.batch.vP, ctx.batch.vV, old(ctx.batch.vP), old(ctx.batch.vV))
+//@   before handlePutBatch assert [C07.batch.ops] len(ops) == len(c.Command.Batch) && forall j int :: 0 <= j && j < len(ops) ==> ops[j] != nil && !ops[j].PrevKv && sameSlice(ops[j].Key, c.Command.Batch[j].Key) && sameSlice(ops[j].Value, c.Command.Batch[j].Value)
+//@   modifies ctx.batch, family(G_any_vP), family(G_any_vV)
+//@   loop 0 invariant -1 <= rangeindex && rangeindex < len(c.Command.Batch) && len(req) == len(c.Command.Batch) && fresh(req)
+//@   loop 0 invariant forall j int :: 0 <= j && j <= rangeindex ==> req[j] != nil && !req[j].PrevKv && sameSlice(req[j].Key, c.Command.Batch[j].Key) && sameSlice(req[j].Value, c.Command.Batch[j].Value)
+//@   loop 1 invariant -1 <= rangeindex && rangeindex < len(rop) && (isNilSlice(res) || fresh(res))
